@@ -69,6 +69,7 @@ extern int g_send_allflags_ok;		/* every send call so far carried exactly MSG_NO
 extern unsigned g_accept_calls;
 extern int g_accept_fd;
 extern int g_accept_ret;
+extern int g_accept_errno;
 
 /* connect path: sock_connect_bind_nb / getsockopt(SO_ERROR) / close */
 struct sock_addr;
